@@ -171,6 +171,7 @@ func runC02(c *Ctx, r *Report) {
 	}
 	// ---- R7 ---------------------------------------------------------------------------------------------
 	c02ScratchEscape(c, r)
+	readFullExact(c, r, "C02-R10-readfull-exact")
 	if ok, why, pos := stringArm(c); true {
 		r.check(ok, "C02-R9-string-arm", "parseFitField/string-arm", pos, why, "a string field does not decode to the wire bytes before the first 0x00 inside the field: "+why)
 	}
@@ -545,4 +546,68 @@ func scalarReader(f *ssa.Function) bool {
 		}
 	}
 	return true
+}
+
+// readFullExact: decoder.readFull(p) returns nil only when p has been filled completely: every
+// success return is dominated by the true edge of `len(rest) == 0`, rest being the parameter
+// re-sliced by what was copied so far (a phi of p and rest[n:]). A version that refills once and
+// takes what it gets leaves stale scratch bytes in the tail of a field when the reader returns
+// short reads, and shifts every following field.
+func readFullExact(c *Ctx, r *Report, rule string) {
+	fn := c.ssaFn(c.fn(c.fit, "decoder.readFull"))
+	if fn == nil || len(fn.Params) < 2 {
+		r.fail(rule, "readFull/exact-fill", "", "decoder.readFull not found")
+		return
+	}
+	p := fn.Params[1]
+	visiting := map[ssa.Value]bool{}
+	var derives func(v ssa.Value, depth int) bool
+	derives = func(v ssa.Value, depth int) bool {
+		if depth > 12 {
+			return false
+		}
+		if visiting[v] {
+			return true // a cycle through the loop's own phi
+		}
+		visiting[v] = true
+		defer delete(visiting, v)
+		switch n := v.(type) {
+		case *ssa.Parameter:
+			return n == p
+		case *ssa.Slice:
+			return n.High == nil && derives(n.X, depth+1)
+		case *ssa.Phi:
+			for _, e := range n.Edges {
+				if e == ssa.Value(n) {
+					continue
+				}
+				if !derives(e, depth+1) {
+					return false
+				}
+			}
+			return true
+		}
+		return false
+	}
+	emptyTest := func(v ssa.Value) bool {
+		bo, ok := v.(*ssa.BinOp)
+		if !ok || bo.Op != token.EQL {
+			return false
+		}
+		call, ok := bo.X.(*ssa.Call)
+		if !ok {
+			return false
+		}
+		bi, ok := call.Common().Value.(*ssa.Builtin)
+		k, okK := bo.Y.(*ssa.Const)
+		return ok && bi.Name() == "len" && okK && k.Value != nil && k.Int64() == 0 && derives(call.Common().Args[0], 0)
+	}
+	n, bad := 0, ""
+	for _, ret := range c.successReturns(fn) {
+		n++
+		if !domByBoolEdge(fn, ret.Block(), true, emptyTest) {
+			bad = c.pos(ret.Pos())
+		}
+	}
+	r.check(bad == "" && n > 0, rule, "readFull/exact-fill", c.pos(fn.Pos()), "readFull succeeds only when the whole destination has been filled (len(rest) == 0)", "decoder.readFull can return nil at "+bad+" without having established that the whole destination was filled: with a reader that returns short reads the tail of a field keeps stale bytes and the stream is mis-framed")
 }
